@@ -334,6 +334,35 @@ static void bowls(unsigned long long& unit, Stats& st)
 							ld bound = sqrtl(20 * (ld)ftol * (off + 1e-10L) / 1.0L) + 1e-7L * 0;
 							if(!(dist <= bound)) mc::violation("bowls", "bowls|" + ck + "|not_within_tolerance_of_minimiser", "distance " + mc::dec((double)dist) + " bound sqrt(20*ftol*(|f*|+1e-10)/lambda_min) = " + mc::dec((double)bound) + " after " + std::to_string(M1.nfunc) + " evaluations", g_current);
 							else mc::maxi("dist_over_bound_bowls", (double)(dist / bound));
+							// a used object answers like a fresh one (nothing of the previous run survives in the reported state)
+							{
+								Vec s1b = start, r1b;
+								int nf1 = M1.nfunc;
+								double fm1 = M1.fmin;
+								if(mc::library_exits([&]() { r1b = M1.minimize(s1b, scale, fn); })) mc::violation("bowls", "bowls|" + ck + "|valid_request_terminated_process", "second use of one Minimization object ended the process", g_current);
+								else if(r1b != r1 || !mc::same_bits(M1.fmin, fm1) || M1.nfunc != nf1) mc::violation("bowls", "bowls|" + ck + "|used_object_differs_from_fresh", "second minimize() on the same object: nfunc " + std::to_string(M1.nfunc) + " vs " + std::to_string(nf1) + ", fmin " + mc::dec(M1.fmin) + " vs " + mc::dec(fm1), g_current);
+							}
+							// unequal displacements: the vector overload builds the simplex start, start + deltas[i] e_i
+							if(d >= 2)
+							{
+								Vec dl2(d), s4 = start, r4, r5;
+								for(int i = 0; i < d; i++) dl2[i] = scale * (1.0 + 0.75 * i) * (i % 3 == 1 ? -1 : 1);
+								std::vector<Vec> pp2(d + 1, start), seen;
+								for(int i = 0; i < d; i++) pp2[i + 1][i] += dl2[i];
+								std::function<double(Vec)> spy = [&](Vec x) { if((int)seen.size() <= d) seen.push_back(x); return f(x); };
+								Minimization M4(ftol), M5(ftol);
+								if(mc::library_exits([&]() { r4 = M4.minimize(s4, dl2, spy); r5 = M5.minimize(pp2, fn); })) mc::violation("bowls", "bowls|" + ck + "|valid_request_terminated_process", "minimize with unequal deltas ended the process", g_current);
+								else
+								{
+									bool vertices = (int)seen.size() == d + 1;
+									for(int i = 0; vertices && i <= d; i++) vertices = std::find(seen.begin(), seen.end(), pp2[i]) != seen.end();
+									if(!vertices) mc::violation("bowls", "bowls|" + ck + "|initial_simplex_not_start_plus_deltas", "the first d+1 evaluations of minimize(start, deltas, f) are not start and start + deltas[i] e_i", g_current);
+									if(r4 != r5 || !mc::same_bits(M4.fmin, M5.fmin) || M4.nfunc != M5.nfunc) mc::violation("bowls", "bowls|" + ck + "|overloads_differ", "minimize(start, deltas, f) with unequal deltas differs from minimize(simplex, f) on the same simplex", g_current);
+									ld worst = f(start);
+									for(auto& v : pp2) worst = std::min(worst, (ld)f(v));
+									if(!(M4.fmin <= (double)worst)) mc::violation("bowls", "bowls|" + ck + "|worse_than_start", "fmin exceeds the best documented initial vertex (unequal deltas)", g_current);
+								}
+							}
 							if(!mc::same_bits(M1.fmin, f(r1))) mc::violation("bowls", "bowls|" + ck + "|reported_fmin_wrong", "fmin is not the objective at the returned point", g_current);
 							if(!(M1.fmin <= f(start))) mc::violation("bowls", "bowls|" + ck + "|worse_than_start", "fmin exceeds the objective at the starting point", g_current);
 						}
